@@ -114,7 +114,7 @@ func (r *Renter) Form(prices proto4.HostPrices, params proto4.RPCFormContractPar
 // RenewResult is the outcome of a renew or refresh exchange.
 type RenewResult struct {
 	Result
-	Kind     string // renew | refresh-full | refresh-partial
+	Kind     string                      // renew | refresh-full | refresh-partial
 	Expected types.V2FileContractRenewal // core's Renew/Refresh on the renter's view, unsigned
 	Usage    proto4.Usage
 	// HostRenewal is the renewal in the set the host returned (if Done).
